@@ -239,7 +239,8 @@ def api_case_ops(kind, walk, rng, with_twin=True, rounds=None):
         ops.append({"op": "from_seed", "g": 1, "kind": kind, "seed": sd})
     for op, n in walk:
         if op == "fill_bytes":
-            ops.append({"op": op, "g": 1, "n": n})
+            # the destination slice starts at varying offsets from an 8-byte boundary
+            ops.append({"op": op, "g": 1, "n": n, "off": rng.choice([0, 0, 1, 2, 3, 4, 5, 6, 7])})
         else:
             ops.append({"op": op, "g": 1})
     return ops
@@ -366,6 +367,25 @@ def jitter_case(rng, tier, style):
     return ops
 
 
+def stuck_run_cases(S, rng, ns, rounds):
+    for n_stuck in ns:
+        for style in (("stand",) if n_stuck > 5000 else ("stand", "equal")):
+            t = rng.getrandbits(40) + (1 << 34)
+            rd = [t]
+            for D in (17, 29, 41):
+                t += D
+                rd += [t - 1, t, t + 1]
+            for k in range(n_stuck):
+                t += 0 if style == "stand" else 1001
+                rd += [t, t, t]
+            for k in range(rounds + 14):
+                t += 59 + 14 * k + (k * k) % 11
+                rd += [t - 1, t, t + 1]
+            S.case("jitter %d stuck measurements in a row (%s), rounds %d" % (n_stuck, style, rounds),
+                   [{"op": "timer", "t": 1, "readings": [u64(x) for x in rd], "cont": CONT}, {"op": "jit_new", "g": 1, "t": 1},
+                    {"op": "set_rounds", "g": 1, "r": rounds}, {"op": "next_u64", "g": 1}, {"op": "next_u32", "g": 1}], weight=20 + n_stuck // 3 + rounds)
+
+
 def c12_corpus(seed, tier):
     rng = random.Random(seed * 1000003 + 12)
     S = Sched()
@@ -410,6 +430,9 @@ def c12_corpus(seed, tier):
             ops += [{"op": "timer", "t": g, "readings": [u64(x) for x in rd], "cont": CONT}, {"op": "jit_new", "g": g, "t": g},
                     {"op": "set_rounds", "g": g, "r": rounds}, {"op": "next_u64", "g": g}]
         S.case("jitter delta sequences %d.." % lo, ops, weight=chunk * 12)
+    # long runs of consecutive stuck measurements (a standing clock, a clock ticking in equal steps) in the middle of
+    # a collection: a stuck measurement is repeated however often it takes - no retry limit, no narrow retry counter
+    stuck_run_cases(S, rng, (70, 260, 1030, 4100, 65600) if tier == "quick" else (64, 65, 70, 130, 255, 256, 260, 1030, 4100, 32800, 65535, 65536, 65600), 3)
     # the one documented panic
     sc = jitter_script(rng, [("random", 100)])
     S.case("jitter set_rounds(0)", [{"op": "timer", "t": 1, "readings": [u64(x) for x in sc], "cont": CONT},
@@ -552,7 +575,9 @@ def c14_api_corpus(seed, tier):
                 if o["op"] == "from_seed":
                     o["seed"] = sd
             S.case("extreme %s seed#%d" % (kind, si), ops, weight=3000)
-        for x in (0, 1, M64, 1 << 63, (1 << 32) - 1):
+        # boundary arguments, and the arguments for which the k-th SplitMix64 output is zero (x = -k * PHI)
+        adv = [(-k * 0x9E3779B97F4A7C15) & M64 for k in range(1, 9)]
+        for x in [0, 1, M64, 1 << 63, (1 << 32) - 1, 1 << 32, (1 << 63) - 1] + adv + [(a + 1) & M64 for a in adv[:2]]:
             walk = [("next_u64", 0), ("fill_bytes", 13), ("next_u32", 0), ("fill_bytes", 0), ("next_u32", 0)]
             ops = api_case_ops(kind, walk, rng)
             for o in ops:
@@ -678,6 +703,30 @@ def c13_corpus(seed, tier, cases):
             rd += [time, (time + 1) & M64, (time + 2) & M64, time2]
             t = max(time, time2)
         add("tt 270 multiples of 100 and %d steps back by %d" % (nback, step), rd)
+    # stuck count around the 90% limit (270 of 300) with 1..3 of the stuck probes running BACKWARDS (deltas in an
+    # arithmetic progression through zero: second difference zero): every measured probe goes through the stuck test,
+    # whatever else is wrong with it
+    for L in (range(24, 29) if tier == "quick" else range(20, 33)):
+        for nback in ((1, 3) if tier == "quick" else (1, 2, 3)):
+            t = rng.getrandbits(40) + (1 << 20)
+            rd = [t]
+            prog = [2 * nback - 1 - 2 * j for j in range(-2, nback)]          # e.g. 9, 7, 5, 3, 1 ... wait: ends with nback negative terms
+            prog = [2 * k + 1 for k in range(2, -1, -1)] + [-(2 * k + 1) for k in range(nback)]     # 5, 3, 1, -1, (-3, (-5))
+            for j in range(1, 401):
+                i = j - 101
+                if i < 0:
+                    d = 1000 + 37 * j + (j * j) % 17
+                elif i < L:
+                    d = 1200 + 41 * i + (i * i * i) % 23
+                elif i < L + len(prog):
+                    d = prog[i - L]
+                else:
+                    d = 1001
+                time = (t + 5000) & M64
+                time2 = (time + d) & M64
+                rd += [time, (time + 1) & M64, (time + 2) & M64, time2]
+                t = max(time, time2)
+            add("tt %d lively probes, progression through zero with %d backward, then constant" % (L, nback), rd)
     # seeded random timers
     for i in range(6 if tier == "quick" else 500):
         style = rng.choice(["jit", "coarse", "const", "lin", "wild"])
@@ -741,7 +790,7 @@ def c15_schedule(seed, tier):
     for i in range(-1, 64):
         stir(["st", i], 0 if i < 0 else 1 << i)
     # NB: the linear part of "lp"/"lt" is taken relative to f(0) recorded with the same fixed argument
-    n = 40 if tier == "quick" else 4000
+    n = 40 if tier == "quick" else 500
     for k in range(n):
         a, b = rng.getrandbits(64), rng.getrandbits(64)
         for which, v in (("a", a), ("b", b), ("ab", a ^ b)):
@@ -772,6 +821,34 @@ def c15_schedule(seed, tier):
 
 
 # ---------------------------------------------------------------- C02 / C03
+def isaac_premixed(bits):
+    """the eight initial values a..h of randinit: the golden ratio mixed four times (input construction only)"""
+    M = (1 << bits) - 1
+    v = [0x9e3779b9 if bits == 32 else 0x9e3779b97f4a7c13] * 8
+    for _ in range(4):
+        a, b, c, d, e, f, g, h = v
+        if bits == 32:
+            a ^= (b << 11) & M; d = (d + a) & M; b = (b + c) & M
+            b ^= c >> 2; e = (e + b) & M; c = (c + d) & M
+            c ^= (d << 8) & M; f = (f + c) & M; d = (d + e) & M
+            d ^= e >> 16; g = (g + d) & M; e = (e + f) & M
+            e ^= (f << 10) & M; h = (h + e) & M; f = (f + g) & M
+            f ^= g >> 4; a = (a + f) & M; g = (g + h) & M
+            g ^= (h << 8) & M; b = (b + g) & M; h = (h + a) & M
+            h ^= a >> 9; c = (c + h) & M; a = (a + b) & M
+        else:
+            a = (a - e) & M; f ^= h >> 9; h = (h + a) & M
+            b = (b - f) & M; g ^= (a << 9) & M; a = (a + b) & M
+            c = (c - g) & M; h ^= b >> 23; b = (b + c) & M
+            d = (d - h) & M; a ^= (c << 15) & M; c = (c + d) & M
+            e = (e - a) & M; b ^= d >> 14; d = (d + e) & M
+            f = (f - b) & M; c ^= (e << 20) & M; e = (e + f) & M
+            g = (g - c) & M; d ^= f >> 17; f = (f + g) & M
+            h = (h - d) & M; e ^= (g << 14) & M; g = (g + h) & M
+        v = [a, b, c, d, e, f, g, h]
+    return v
+
+
 def block_alg_corpus(kind, seed, tier, n_unit_words, long_words, salt):
     """unit-bit seeds (every key/IV resp. seed bit), structured seeds, random seeds, long runs"""
     rng = random.Random(seed * 1000003 + salt)
@@ -783,6 +860,13 @@ def block_alg_corpus(kind, seed, tier, n_unit_words, long_words, salt):
         S.case("%s unit bit %d" % (kind, bit), [{"op": "from_seed", "g": 1, "kind": kind, "seed": unit_seed(kind, bit)},
                                                {"op": nat, "g": 1, "n": n_unit_words}], weight=n_unit_words + 300)
     structured = [[0] * 32, [0xFF] * 32, [0x80] * 32, list(range(32)), [0xAA, 0x55] * 16, [0] * 16 + [0xFF] * 16, [0xFF] * 16 + [0] * 16, [1] + [0] * 31]
+    if kind.startswith("Isaac"):
+        # key words that cancel (or double, or complement) the initial a..h of randinit in its first step: the state the
+        # key schedule starts from is then blank or degenerate
+        bits = 32 if kind == "IsaacRng" else 64
+        pm = isaac_premixed(bits)[:256 // bits]
+        for f in (lambda w: -w, lambda w: w, lambda w: ~w, lambda w: 1 - w):
+            structured.append([b for w in pm for b in (f(w) & ((1 << bits) - 1)).to_bytes(bits // 8, "little")])
     for i, sd in enumerate(structured):
         S.case("%s structured %d" % (kind, i), [{"op": "from_seed", "g": 1, "kind": kind, "seed": sd},
                                                 {"op": nat, "g": 1, "n": n_unit_words}], weight=n_unit_words + 300)
@@ -902,6 +986,16 @@ def c08_corpus(seed, tier, adversarial):
                 ops.append({"op": nat, "g": 1, "n": 3})
                 sid += 1
         S.case("%s from_rng after many zero blocks" % kind, ops)
+        # z all-zero blocks and then the source FAILS (at call z + 1, with and without a partial write, sticky or not):
+        # no generator may come back - in particular not one built from the zero block in hand
+        ops, sid = [], 1
+        for z in (1, 2, 5):
+            for partial in (0, 3, L - 1):
+                for sticky in (False, True):
+                    ops.append({"op": "src", "s": sid, "bytes": src_bytes(rng, kind, z, z + 3), "fallible": True, "fail_at": z + 1, "partial": partial, "sticky": sticky})
+                    ops.append({"op": "try_from_rng", "g": 1, "kind": kind, "s": sid})
+                    sid += 1
+        S.case("%s try_from_rng: zero blocks, then the source fails" % kind, ops)
     return S
 
 
@@ -968,7 +1062,14 @@ FROMRNG_LEN = {"IsaacRng": 1024, "Isaac64Rng": 2048}
 
 
 # ---------------------------------------------------------------- C10 / C11
-HAS_EQ = set(XO) | {"SplitMix64", "XorShiftRng", "Hc128Rng", "Hc128Core", "IsaacCore", "Isaac64Core"}
+class _Everything:
+    def __contains__(self, k):
+        return True
+
+
+# == is attempted on every type: the harness finds out at compile time whether the type provides it and records
+# "no_ret" otherwise (the trace specifications ignore such events)
+HAS_EQ = _Everything()
 SERDE_KINDS = list(XO) + ["SplitMix64", "XorShiftRng", "IsaacRng", "Isaac64Rng"]
 
 
@@ -976,6 +1077,7 @@ def opj(op, g, n=None, mirror=None):
     o = {"op": op[0] if isinstance(op, tuple) else op, "g": g}
     if isinstance(op, tuple) and op[0] == "fill_bytes":
         o["n"] = op[1]
+        o["off"] = (op[1] + 3 * g) % 8          # destination offset from an 8-byte boundary
     if n is not None:
         o["n"] = n
     if mirror is not None:
@@ -1032,6 +1134,19 @@ def far_corpus(seed, tier, quick_kinds=None):
     return S
 
 
+def very_far_corpus(seed, digest=False):
+    """Hc128Rng past word 2^32 (16 GiB of output; a few seconds in an optimised build): where a 32-bit word or step
+    counter would wrap.  Run in the optimised build WITH overflow checks."""
+    rng = random.Random(seed * 1000003 + 78)
+    S = Sched()
+    sd = [rng.getrandbits(8) for _ in range(32)]
+    ops = [{"op": "from_seed", "g": 1, "kind": "Hc128Rng", "seed": sd}, {"op": "next_u32", "g": 1},
+           {"op": "skip", "g": 1, "kib": (1 << 24) + 16, "via": "fill", "digest": digest},
+           {"op": "next_u32", "g": 1}, {"op": "next_u64", "g": 1}, {"op": "fill_bytes", "g": 1, "n": 70, "off": 3}, {"op": "next_u32", "g": 1}]
+    S.case("Hc128Rng past word 2^32", ops, weight=100)
+    return S
+
+
 def c10_corpus(seed, tier, node_paths_by_kind):
     rng = random.Random(seed * 1000003 + 10)
     S = Sched()
@@ -1052,7 +1167,7 @@ def c10_corpus(seed, tier, node_paths_by_kind):
             ops += [{"op": "from_seed", "g": 7, "kind": kind, "seed": [rng.getrandbits(8) for _ in range(32)]}, opj(("next_u32", 0), 7, n=3),
                     {"op": "clone_from", "g": 7, "from": 1}, {"op": "eq", "a": 1, "b": 7}]
             ops += lockstep([("next_u32", 0), ("next_u64", 0), ("fill_bytes", 9), ("next_u32", 0)], [1, 7])
-            if kind == "Hc128Rng":
+            if True:      # every buffered type (== is used wherever the type provides it, see the harness)
                 # same seed, another read position of the same block / same position, another seed
                 ops += [{"op": "from_seed", "g": 3, "kind": kind, "seed": sd}, {"op": "from_seed", "g": 4, "kind": kind, "seed": sd}]
                 ops += [opj(("next_u32", 0), 3, n=3), opj(("next_u32", 0), 4, n=4), {"op": "eq", "a": 3, "b": 4}]
@@ -1062,6 +1177,14 @@ def c10_corpus(seed, tier, node_paths_by_kind):
                 ops += [{"op": "from_seed", "g": 5, "kind": kind, "seed": sd}, {"op": "from_seed", "g": 6, "kind": kind, "seed": sd2},
                         opj(("next_u32", 0), 5, n=3), opj(("next_u32", 0), 6, n=3), {"op": "eq", "a": 5, "b": 6}]
                 ops += lockstep([("next_u32", 0), ("fill_bytes", 9)], [5, 6])
+                # same seed, same buffer index, but one of the two owes the high half of a word (64-bit words) resp.
+                # reached the index by another route: next_u32 next to next_u64; two next_u32 next to one next_u64
+                for ga, gb, ra, rb in ((8, 9, [("next_u32", 0)], [("next_u64", 0)]), (10, 11, [("next_u32", 0), ("next_u32", 0)], [("next_u64", 0)]),
+                                       (12, 13, [("next_u64", 0), ("next_u32", 0)], [("next_u64", 0), ("next_u64", 0)])):
+                    ops += [{"op": "from_seed", "g": ga, "kind": kind, "seed": sd}, {"op": "from_seed", "g": gb, "kind": kind, "seed": sd}]
+                    ops += [opj(e, ga) for e in ra] + [opj(e, gb) for e in rb] + [{"op": "eq", "a": ga, "b": gb}]
+                    ops += lockstep([("next_u32", 0), ("next_u64", 0), ("next_u32", 0)], [ga, gb])
+                    ops += [{"op": "eq", "a": ga, "b": gb}]
             S.case("%s clone at %s" % (kind, node), ops, weight=len(ops) * (1 + bb[kind] // 64))
     # B. plain generators
     for kind in list(XO) + ["SplitMix64", "XorShiftRng"]:
@@ -1335,7 +1458,7 @@ def c19_corpus(seed, tier, scheds):
         def ctor(g, inst, th=None):
             if kind[g] == "JitterRng":
                 o = [{"op": "timer", "t": inst, "readings": [u64(x) for x in tsc[g]], "cont": CONT},
-                     {"op": "jit_new", "g": inst, "t": inst}, {"op": "set_rounds", "g": inst, "r": 2}]
+                     {"op": "jit_new", "g": inst, "t": inst}, {"op": "set_rounds", "g": inst, "r": 24}]      # long collections: the unscripted background overlaps them
             else:
                 mode, sd = seeds[g]
                 if mode == "zero":
@@ -1357,7 +1480,7 @@ def c19_corpus(seed, tier, scheds):
             solo.append(ctor(g, 10 + g) + [{"op": native_op(kind[g]), "g": 10 + g, "n": N, "role": "twin", "of": g}])
             if kind[g] == "SplitMix64":
                 solo.append(ctor(g, 20 + g) + [{"op": "next_u32", "g": 20 + g, "n": N, "role": "twin32", "of": g}])
-        ops.append({"op": "bg_start", "threads": 2, "kinds": sorted({k1, k2})})
+        ops.append({"op": "bg_start", "threads": 6 if "JitterRng" in (k1, k2) else 2, "kinds": sorted({k1, k2})})
         cnt = {1: 0, 2: 0}
         for (g, t, what) in sc:
             if what == "new":
@@ -1398,6 +1521,18 @@ def c18_corpora(seed, tier):
         bb = {"Hc128Rng": 64, "IsaacRng": 1024, "Isaac64Rng": 2048}.get(kind)
         for r in range(2 if tier == "quick" else 6):
             api.case("%s mixed calls %d" % (kind, r), api_case_ops(kind, random_walk(rng, 40, WORDBYTES[kind], bb), rng))
+        # long requests into destinations at every offset from an 8-byte boundary
+        base = bb or 1024
+        w = []
+        for i, n in enumerate([base + 1, 2 * base, 3 * base + 5, 2 * base + 3, base, 4 * base + 2, base + base // 2, 3 * base]):
+            w += [("fill_bytes", n), rng.choice([("next_u32", 0), ("next_u64", 0)])]
+        ops = api_case_ops(kind, w, rng)
+        k = 0
+        for o in ops:
+            if o["op"] == "fill_bytes":
+                o["off"] = (1, 2, 3, 4, 5, 6, 7, 0)[k % 8]
+                k += 1
+        api.case("%s long requests at all destination offsets" % kind, ops, weight=8 * base // 4)
     jit = Sched()
     for c in c12_corpus(seed, "quick").cases[:30]:
         jit.case(c["label"], c["ops"], c["weight"])
